@@ -85,13 +85,18 @@ def coarse(path):
                              ("allOf", "allOf"), ("entry", "/entrypoint")) if pat in cls]
     if cls.count("/") > 2:
         tags.append("nested")
+    m = re.search(r'member:"(\d+)":numeric$', path)
+    if m:
+        tags.append("longdigits" if len(m.group(1)) >= 19 else "shortdigits")
     return ",".join(tags) + "|" + cls.split("/")[-1]
 
 
-def case_text(lang, conjunct, verdict, req):
-    """the text the `match` regex of a known finding is applied to"""
+def case_text(lang, conjunct, verdict, req, cls=None):
+    """the text the `match` regex of a known finding is applied to; with `cls`, only the violation
+    paths of that failure class are listed"""
     vir = req.split(" ", 2)[2]
-    return "lang=%s conjunct=%s at=%s input=%s" % (lang, conjunct, ";".join(conjunct_paths(verdict, conjunct)), vir)
+    paths = [p for p in conjunct_paths(verdict, conjunct) if cls is None or coarse(p) == cls]
+    return "lang=%s conjunct=%s at=%s input=%s" % (lang, conjunct, ";".join(paths), vir)
 
 
 # ------------------------------------------------------------------ known findings
@@ -484,24 +489,25 @@ def classify_failures(c, hb, fail_rows, max_classes):
     for r in fail_rows:
         lang = r[0].split(" ")[1]
         for conj in failing_conjuncts(r[2]):
-            ps = conjunct_paths(r[2], conj)
-            k = (lang, conj, coarse(ps[0]) if ps else "")
-            classes.setdefault(k, []).append(r)
+            for cl in sorted({coarse(p) for p in conjunct_paths(r[2], conj)}):
+                classes.setdefault((lang, conj, cl), []).append(r)
     c.cov["failure_classes"] = len(classes)
     summary = {}
     reported = 0
     for k in sorted(classes, key=lambda k: -len(classes[k]))[:max_classes]:
-        lang, conj, _ = k
+        lang, conj, cl = k
         r = min(classes[k], key=lambda x: len(x[0]))
 
-        def still(rows, lang=lang, conj=conj):
+        # shrinking stays INSIDE the failure class (same conjunct, same shape of violating position),
+        # so that a case of one mechanism cannot drift to the minimal case of another, known one
+        def still(rows, conj=conj, cl=cl):
             for i, x in enumerate(rows):
-                if len(x) > 2 and x[2].startswith("FAIL") and conj in failing_conjuncts(x[2]):
+                if len(x) > 2 and x[2].startswith("FAIL") and any(coarse(p) == cl for p in conjunct_paths(x[2], conj)):
                     return i
             return None
         small = shrink(hb, r[0], still)
         rr = eval_requests(hb, [small])[0]
-        text = case_text(lang, conj, rr[2], small)
+        text = case_text(lang, conj, rr[2], small, cl)
         kf = c.match_known(text)
         if kf:
             c.known_hit[kf["id"]] += len(classes[k]) - 1
